@@ -258,7 +258,7 @@ pub fn run(report: &mut Report, replay: Option<&Value>) {
                 if opts.derive_mode {
                     opts.operation_name = Some(b.case.units[0].struct_name.clone());
                 }
-                jobs.push(Job { schema_path: sp, query: QuerySrc::Text(b.case.document.clone()), opts });
+                jobs.push(Job { schema_path: sp, query: QuerySrc::Text(b.case.document.clone()), opts, cwd: None });
                 let mut outer: BTreeSet<String> = b.case.extern_enums.iter().cloned().collect();
                 for (n, _) in &b.case.scalars {
                     outer.insert(crate::cases::rust_type_name(n, b.case.opts.normalization_rust));
